@@ -30,8 +30,8 @@ ORACLES = {
     "C10": ["oracle_c10", "c10_"],
     "C11": ["oracle_c11", "c11_"],
     "C12": ["oracle_c12"],
-    "C13": ["c13_"],
-    "C15": ["c15_"],
+    "C13": ["c13_", "oracle_c13"],
+    "C15": ["c15_", "oracle_c15"],
     "C16": ["oracle_c16", "c16_"],
     "C18": ["oracle_c18"],
 }
